@@ -25,6 +25,7 @@ import (
 	"sync/atomic"
 
 	"github.com/cloudwego/eino/internal/safe"
+	"github.com/cloudwego/eino/internal/verifhook"
 )
 
 // ErrNoValue is used during StreamReaderWithConvert to skip a streamItem, excluding it from the converted stream.
@@ -289,7 +290,9 @@ func (s *stream[T]) asReader() *StreamReader[T] {
 }
 
 func (s *stream[T]) recv() (chunk T, err error) {
+	verifhook.Y("stream.recv.pre")
 	item, ok := <-s.items
+	verifhook.Y("stream.recv.post")
 
 	if !ok {
 		item.err = io.EOF
@@ -299,9 +302,11 @@ func (s *stream[T]) recv() (chunk T, err error) {
 }
 
 func (s *stream[T]) send(chunk T, err error) (closed bool) {
+	verifhook.Y("stream.send.pre")
 	// if the stream is closed, return immediately
 	select {
 	case <-s.closed:
+		verifhook.Y("stream.send.post")
 		return true
 	default:
 	}
@@ -310,17 +315,21 @@ func (s *stream[T]) send(chunk T, err error) (closed bool) {
 
 	select {
 	case <-s.closed:
+		verifhook.Y("stream.send.post")
 		return true
 	case s.items <- item:
+		verifhook.Y("stream.send.post")
 		return false
 	}
 }
 
 func (s *stream[T]) closeSend() {
+	verifhook.Y("stream.closeSend.pre")
 	close(s.items)
 }
 
 func (s *stream[T]) closeRecv() {
+	verifhook.Y("stream.closeRecv.pre")
 	close(s.closed)
 }
 
@@ -407,7 +416,20 @@ func (msr *multiStreamReader[T]) recv() (T, error) {
 		var ok bool
 		if len(msr.chosenList) > maxSelectNum {
 			var recv reflect.Value
+			verifhook.Y("stream.select.pre")
+			if verifhook.On {
+				if order := verifhook.Poll(len(msr.chosenList)); order != nil {
+					for _, k := range order {
+						if v, recvOK := msr.itemsCases[msr.chosenList[k]].Chan.TryRecv(); recvOK || v.IsValid() {
+							chosen, recv, ok = msr.chosenList[k], v, recvOK
+							goto selected
+						}
+					}
+				}
+			}
 			chosen, recv, ok = reflect.Select(msr.itemsCases)
+		selected:
+			verifhook.Y("stream.select.post")
 			if ok {
 				item := recv.Interface().(streamItem[T]) // nolint: byted_interface_check_golintx
 				return item.chunk, item.err
@@ -415,7 +437,9 @@ func (msr *multiStreamReader[T]) recv() (T, error) {
 			msr.itemsCases[chosen].Chan = reflect.Value{}
 		} else {
 			var item *streamItem[T]
+			verifhook.Y("stream.select.pre")
 			chosen, item, ok = receiveN(msr.chosenList, msr.sts)
+			verifhook.Y("stream.select.post")
 			if ok {
 				return item.chunk, item.err
 			}
@@ -504,7 +528,10 @@ func (srw *streamReaderWithConvert[T]) close() {
 func (srw *streamReaderWithConvert[T]) toStream() *stream[T] {
 	ret := newStream[T](5)
 
+	verifhook.Spawn("stream.fwd")
 	go func() {
+		verifhook.Enter("stream.fwd")
+		defer verifhook.Exit()
 		defer func() {
 			panicErr := recover()
 			if panicErr != nil {
@@ -598,6 +625,7 @@ func (p *parentStreamReader[T]) peek(idx int) (t T, err error) {
 	// 1. Write the content of this cpStreamElement.
 	// 2. Initialize the 'next' field of this cpStreamElement with an empty cpStreamElement,
 	//    similar to the initialization in copyStreamReaders.
+	verifhook.Y("stream.peek.pre")
 	elem.once.Do(func() {
 		t, err = p.sr.Recv()
 		elem.item = streamItem[T]{chunk: t, err: err}
@@ -606,6 +634,8 @@ func (p *parentStreamReader[T]) peek(idx int) (t T, err error) {
 			p.subStreamList[idx] = elem.next
 		}
 	})
+
+	verifhook.Y("stream.peek.post")
 
 	// The element has been set and will not be modified again.
 	// Therefore, children can read this element's content and 'next' pointer concurrently.
@@ -625,6 +655,7 @@ func (p *parentStreamReader[T]) close(idx int) {
 
 	p.subStreamList[idx] = nil
 
+	verifhook.Y("stream.copyclose.pre")
 	curClosedNum := atomic.AddUint32(&p.closedNum, 1)
 
 	allClosed := int(curClosedNum) == len(p.subStreamList)
@@ -645,7 +676,10 @@ func (csr *childStreamReader[T]) recv() (T, error) {
 func (csr *childStreamReader[T]) toStream() *stream[T] {
 	ret := newStream[T](5)
 
+	verifhook.Spawn("stream.fwd")
 	go func() {
+		verifhook.Enter("stream.fwd")
+		defer verifhook.Exit()
 		defer func() {
 			panicErr := recover()
 			if panicErr != nil {
